@@ -44,6 +44,15 @@ def exists(lo, hi, f):
     return any(f(i) for i in range(lo, hi))
 
 
+def _snap(x):
+    if isinstance(x, memoryview):
+        return bytes(x)
+    try:
+        return copy.deepcopy(x)
+    except Exception:  # noqa: BLE001
+        return x
+
+
 class _OldRewriter(ast.NodeTransformer):
     def __init__(self):
         self.olds = []
@@ -57,8 +66,16 @@ class _OldRewriter(ast.NodeTransformer):
         return self.generic_visit(node)
 
 
+def re_in(s, pattern):
+    import re
+    if isinstance(s, (bytes, bytearray)):
+        return re.fullmatch(pattern.encode("latin-1"), bytes(s)) is not None
+    return re.fullmatch(pattern, s, re.ASCII) is not None
+
+
 def spec_namespace(reg):
-    ns = {"implies": implies, "forall": forall, "exists": exists}
+    ns = {"implies": implies, "forall": forall, "exists": exists, "re_in": re_in, "str_to_int": int,
+          "int_max_digits": lambda: __import__("sys").get_int_max_str_digits()}
     for name, (sig, body) in reg.spec_src.items():
         params = sig[sig.index("(") + 1: sig.rindex(")")]
         ns[name] = eval(f"lambda {params}: ({body})", ns)  # noqa: S307 - our own contract text
@@ -97,7 +114,7 @@ class NativeContract:
         olds = []
         for code in self.old_code:
             try:
-                olds.append(copy.deepcopy(eval(code, ns)))  # noqa: S307
+                olds.append(_snap(eval(code, ns)))  # noqa: S307
             except Exception as e:  # noqa: BLE001
                 olds.append(e)
         ns["__old__"] = olds
